@@ -75,6 +75,16 @@ fn compound_variable_kind(
     }
 }
 
+/// Whether a literal variable name must be written in its escaped form (`\\x_1`)
+/// to be read back as one name. Leading underscores belong to a simple name
+/// (`_x`), which is written as it is: only an underscore after the first
+/// letter would otherwise be read as an index separator.
+pub(crate) fn needs_escape(name: &str) -> bool {
+    name.trim_start_matches('$')
+        .trim_start_matches('_')
+        .contains('_')
+}
+
 /// Folds a list of expressions into a chain of binary exclusive disjunctions,
 /// which computes the parity (odd number of true values) of the whole list.
 fn fold_xor(exps: Vec<Exp>) -> Exp {
@@ -1004,7 +1014,7 @@ impl fmt::Display for PreExp {
                 }
             }
             Self::Variable(name) => {
-                if name.contains('_') {
+                if needs_escape(name) {
                     //in case this is a escaped variable
                     format!("\\{}", **name)
                 } else {
